@@ -708,3 +708,71 @@ def gen_c05_program(rng):
         if is_tame(prog):
             return prog
     return prog
+
+
+def sibling(prog, rng, attempts=4):
+    """A variant of `prog` with the same variable names, conditions and statement structure but other values /
+    distribution parameters at one to three sites: the shape for which state keyed by a name, a condition or a
+    distribution family only (and kept between the programs of one process) is wrong.  None if no site exists."""
+    import copy as _copy
+
+    def sites_of(p):
+        out = []
+
+        def visit(stmts):
+            for s in stmts:
+                if s[0] == "assign":
+                    r = s[2]
+                    if r[0] == "choice":
+                        nums = [it[0] for it in r[1] if it[0][0] == "num"]
+                        if nums:
+                            out.append(("choice", r, nums))
+                    elif r[0] == "draw" and all(a[0] == "num" for a in r[2][-1:]):
+                        out.append(("draw", r, None))
+                elif s[0] == "if":
+                    for _, br in s[1]:
+                        visit(br)
+                    if s[2] is not None:
+                        visit(s[2])
+
+        visit(p["body"])
+        return out
+
+    for _ in range(attempts):
+        p = _copy.deepcopy(prog)
+        p["types"] = []
+        sites = sites_of(p)
+        if not sites:
+            return None
+        for kind, r, nums in rng.sample(sites, min(len(sites), rng.choice([1, 1, 2, 3]))):
+            if kind == "choice":
+                present = {n[1] for n in nums}
+                node = rng.choice(nums)
+                for d in rng.sample([1, 2, -1, 3], 4):
+                    new = num(Fraction(node[1]) + d)
+                    if new[1] not in present:
+                        node[1] = new[1]
+                        break
+            else:
+                fam, args = r[1], r[2]
+                if fam == "Bernoulli":
+                    if rng.random() < 0.5:
+                        r[1], r[2] = "DiscreteUniform", [num(0), num(2)]
+                    else:
+                        args[0] = num(rng.choice([q for q in PROB_POOL if num(q) != args[0]]))
+                elif fam == "Categorical":
+                    if len({a[1] for a in args}) > 1:
+                        args.append(args.pop(0))
+                    else:
+                        args.append(num(0))
+                        args[0], args[-1] = num(Fraction(args[0][1]) / 2), num(Fraction(args[0][1]) / 2)
+                elif fam == "Beta":
+                    args[0] = num(Fraction(args[0][1]) + 1)
+                elif fam == "Gamma":
+                    args[0] = num(Fraction(args[0][1]) + 1)
+                else:
+                    # DiscreteUniform / Uniform / TruncNormal: upper bound; Normal / Laplace: scale; DistExp: rate
+                    args[-1] = num(Fraction(args[-1][1]) + 1)
+        if p != prog and is_tame(p):
+            return p
+    return None
